@@ -141,9 +141,37 @@ def render_entry(rng_bits, c, bad=None, opt=None):
         out.append(J(list(a[:5]) + (['%.2f' % (0.1 + 0.07 * ((b + i) % 23))] if opt.get('biso') else [])))
     return out
 
+def many_perm(seed, i):
+    return (i * 7919 + 13 * seed) % 10007
+
+def many_name(seed, i):
+    return 'M%d_%05d' % (seed % 1000, many_perm(seed, i))
+
+def gen_many(seed, i):
+    """crystal number i of the generated family `seed` of the bulk operations - the same integer arithmetic as harness/c14drv.c:gen_many and
+    lean-crystals/Driver.lean:genMany; every number is a dyadic fraction that its decimal text carries exactly"""
+    perm = many_perm(seed, i)
+    if perm % 3 == 0: ang = ['90', '90', '90']
+    elif perm % 3 == 1: ang = ['90', '90', '120']
+    else: ang = [str(80 + i % 15), str(85 + perm % 9), str(95 + i % 11)]
+    cell = ['%.2f' % (3 + perm % 11 + 0.25 * (i % 4)), '%.1f' % (4 + 0.5 * (i % 7)), str(5 + perm % 5)] + ang
+    atoms = [(str(1 + (perm + 13 * j) % 92), '0.5' if j % 2 else '1.0', '%.3f' % (((i + j) % 8) / 8.0), '%.2f' % ((perm % 4) / 4.0), '%.1f' % ((j % 2) * 0.5))
+             for j in range(1 + i % 4)]
+    return dict(name=many_name(seed, i), cell=cell, atoms=atoms, vol='0')
+
+def render_many(n, seed):
+    """the file of a `readmany` operation: n generated crystals in the syntax of data/Crystals.dat"""
+    out = ['#F generated by props/c14.py: %d crystals of family %d' % (n, seed)]
+    for i in range(n):
+        c = gen_many(seed, i)
+        out += ['#S %d %s' % (i + 1, c['name']), '#UCELL ' + ' '.join(c['cell']), '#L  AtomicNumber  Fraction  X  Y  Z'] + [' '.join(a) for a in c['atoms']]
+    return '\n'.join(out) + '\n'
+
 def render_file(spec):
     """spec: dict(entries=[crystal...], bad=None|(kind, crystal), bits=int, tail=0|1|2|3, [tabs, biso, longc, crlf, empty0])
-    or dict(raw=<text>, why=<kind>) for a file whose reading is not predicted by the generator (see `uninterpreted_file`)"""
+    or dict(raw=<text>, why=<kind>) for a file whose reading is not predicted by the generator (see `uninterpreted_file`)
+    or dict(many=(n, seed)) for the file of a bulk `readmany` operation"""
+    if 'many' in spec: return render_many(*spec['many'])
     if 'raw' in spec: return spec['raw']
     if spec.get('empty0'): return ''
     b = spec['bits']
@@ -241,7 +269,8 @@ class Hist:
         self.skip = None
 
     def file_specs(self):
-        return [o['file'] for o in self.ops if o['op'] == 'read' and isinstance(o['file'], dict)]
+        return [dict(many=(o['n'], o['seed'])) if o['op'] == 'readmany' else o['file'] for o in self.ops
+                if o['op'] == 'readmany' or (o['op'] == 'read' and isinstance(o['file'], dict))]
 
     def lines(self, builtin_lines):
         out = list(builtin_lines) + ['pool ' + ' '.join(self.pool)]
@@ -256,6 +285,9 @@ class Hist:
                     out.append(('read %s %d %s' % (o['arr'], o['fidx'], parsed_tokens(o['file']))).rstrip())
                 else:
                     out.append(('read %s %d %s' % (o['arr'], nfile, parsed_tokens(o['file']))).rstrip()); files.append(render_file(o['file'])); nfile += 1
+            elif k == 'addmany': out.append('addmany %s %d %d' % (o['arr'], o['n'], o['seed']))
+            elif k == 'readmany':
+                out.append('readmany %s %d %d %d' % (o['arr'], nfile, o['n'], o['seed'])); files.append('(%d generated crystals, family %d)' % (o['n'], o['seed'])); nfile += 1
             elif k == 'get': out.append('get %s %s' % (o['arr'], o['name']))
             elif k == 'list': out.append('list %s' % o['arr'])
             elif k == 'copy': out.append('copy %s' % self.src(o['src']))
@@ -420,6 +452,58 @@ def gen_history(rng, kind='valid', length=None):
     # history, the names longer than the 20 characters a file can carry, and the 20-character prefixes files store for long names
     cut = sorted({x for o in ops if o['op'] == 'read' and isinstance(o['file'], dict) and 'raw' not in o['file'] for x in file_names(o['file']) if len(x) == 20} - set(names))
     return Hist(ops, names + LONG_NAMES + cut, kind)
+
+# --------------------------------------------------------------------------------------------------------------
+# bulk histories: growth far beyond the initial capacity (and beyond CRYSTALARRAY_MAX, which bounds the built-in collection only)
+
+def bulk_histories(rng, bcap, nbuiltin, tier='quick'):
+    """short histories around one or two bulk operations (`addmany`: hundreds of single additions; `readmany`: a file with hundreds of
+    crystals), into user arrays of several initial capacities and into the built-in collection around its capacity.  After every operation
+    the usual observation: count, capacity, order in memory, listing, and a lookup of a sample of the generated names (first, last, random
+    ones, the first one beyond the family, another family's) - all predicted by the model and by the specification."""
+    free = bcap - nbuiltin
+    fams = rng.sample(range(1, 1000), 40); fi = iter(fams)
+    out = []
+    def pool_for(fams_n, extra=()):
+        ns = []
+        for s, n in fams_n:
+            idx = sorted({0, 1, n - 1, n, max(0, n // 2), min(n - 1, bcap - 2), min(n - 1, bcap), min(n - 1, bcap + 1)} | set(rng.sample(range(max(n, 1)), min(8, max(n, 1)))))
+            ns += [many_name(s, i) for i in idx]
+        return sorted(set(ns)) + ['Si', 'Aa'] + list(extra)
+    def H(ops, fams_n):
+        out.append(Hist(list(ops), pool_for(fams_n), 'bulk'))
+    # (a) single additions: the initial capacities of the task text (0: the vector is created by the first addition; 7, 12: grown in steps)
+    for cap, n in ((0, 700), (7, rng.randint(bcap + 5, bcap + 250)), (12, rng.randint(bcap + 5, bcap + 250))):
+        s1, s2 = next(fi), next(fi)
+        H([dict(op='init', n=cap), dict(op='addmany', arr='A0', n=n, seed=s1), dict(op='get', arr='A0', name=many_name(s1, n - 1)),
+           dict(op='addmany', arr='A0', n=15, seed=s1),                       # every one a duplicate: 0 accepted, first refusal at 0
+           dict(op='addmany', arr='A0', n=25, seed=s2), dict(op='list', arr='A0'), dict(op='free', j=0), dict(op='afree', i=0)], [(s1, n), (s2, 25)])
+    # (b) files with many crystals (staged in a temporary array inside Crystal_ReadFile, then merged)
+    for cap, n in ((3, 600), (0, 300), (0, bcap - 1), (1, 1100)):
+        s1, s2 = next(fi), next(fi)
+        H([dict(op='init', n=cap), dict(op='readmany', arr='A0', n=n, seed=s1), dict(op='get', arr='A0', name=many_name(s1, n // 3)),
+           dict(op='readmany', arr='A0', n=min(n, 320), seed=s1),            # all present: refused, nothing changes
+           dict(op='readmany', arr='A0', n=40, seed=s2), dict(op='free', j=0), dict(op='afree', i=0)], [(s1, n), (s2, 40)])
+    # (c) the built-in collection around its fixed capacity: single additions up to the refusal; files that fit exactly / are one too long
+    s1, s2, s3 = next(fi), next(fi), next(fi)
+    k = rng.randint(3, 30)
+    H([dict(op='addmany', arr='B', n=free + k, seed=s1), dict(op='get', arr='B', name=many_name(s1, free - 1)), dict(op='get', arr='B', name=many_name(s1, free)),
+       dict(op='readmany', arr='B', n=2, seed=s2), dict(op='list', arr='B'), dict(op='free', j=0), dict(op='free', j=1)], [(s1, free + k), (s2, 2)])
+    H([dict(op='readmany', arr='B', n=free, seed=s1), dict(op='addmany', arr='B', n=3, seed=s2), dict(op='list', arr='B')], [(s1, free), (s2, 3)])
+    H([dict(op='readmany', arr='B', n=free + 1, seed=s1), dict(op='list', arr='B'), dict(op='readmany', arr='B', n=free - k, seed=s2),
+       dict(op='readmany', arr='B', n=k + 1, seed=s3), dict(op='readmany', arr='B', n=k, seed=s3), dict(op='addmany', arr='B', n=2, seed=s1)],
+      [(s1, free + 1), (s2, free - k), (s3, k + 1)])
+    # (d) a user array grown past CRYSTALARRAY_MAX next to a filled built-in collection
+    s1, s2 = next(fi), next(fi)
+    H([dict(op='init', n=rng.randint(0, 12)), dict(op='addmany', arr='B', n=free - 2, seed=s1), dict(op='readmany', arr='A0', n=bcap + 88, seed=s1),
+       dict(op='readmany', arr='B', n=3, seed=s2), dict(op='addmany', arr='A0', n=30, seed=s2), dict(op='afree', i=0)], [(s1, bcap + 88), (s2, 30)])
+    if tier != 'quick':
+        for _ in range(6):
+            cap = rng.randint(0, 40); n = rng.randint(bcap - 20, bcap + 300); s1, s2 = next(fi), next(fi)
+            how = rng.choice(['addmany', 'readmany'])
+            H([dict(op='init', n=cap), dict(op=how, arr='A0', n=n, seed=s1), dict(op=rng.choice(['addmany', 'readmany']), arr='A0', n=rng.randint(1, 60), seed=s2),
+               dict(op='list', arr='A0'), dict(op='afree', i=0)], [(s1, n), (s2, 60)])
+    return out
 
 # --------------------------------------------------------------------------------------------------------------
 # exhaustive enumeration of short histories
@@ -644,9 +728,9 @@ def compare_model(c_lines, died, m_lines, stats):
         stats['ub_agreed'] = stats.get('ub_agreed', 0) + 1
         return None
     if m_ub is not None: return 'model says `%s`, the implementation runs to the end without a sanitizer report' % m_lines[m_ub]
-    if len(c_lines) != len(m_lines): return 'different number of lines: impl %d, model %d' % (len(c_lines), len(m_lines))
     for i, (c, m) in enumerate(zip(c_lines, m_lines)):
         if not line_agrees(c, m, stats): return 'line %d: impl `%s` / model `%s`' % (i, c[:200], m[:200])
+    if len(c_lines) != len(m_lines): return 'different number of lines: impl %d, model %d' % (len(c_lines), len(m_lines))
     return None
 
 ALLOC = re.compile(r' alloc=\d+'); ERRTXT = re.compile(r' err=\d+:.*$')
@@ -728,7 +812,7 @@ def account(h, cl, died, stats):
             failed = ' err=' in l and not l.endswith('err=-')
             key = t[2] + (':fail' if failed else ':ok')
             stats.setdefault('dist', {}); stats['dist'][key] = stats['dist'].get(key, 0) + 1
-            if not failed and t[2] in ('add', 'read'): mutated = True
+            if (not failed and t[2] in ('add', 'read', 'readmany')) or (t[2] == 'addmany' and ' ret=0/' not in l): mutated = True
             if failed:
                 msg = re.sub(r'(crystal|Crystal) \S+', r'\1 <name>', l.split(' err=')[1]); msg = re.sub(r'line \d+', 'line <n>', msg); msg = re.sub(r'open \S+ for reading.*', 'open <file>', msg)
                 stats.setdefault('errors', {}); stats['errors'][msg] = stats['errors'].get(msg, 0) + 1
@@ -795,6 +879,16 @@ def shrink(env, h, mode, budget=400):
         k = min(k, len(cur.ops) - 1)
     for i, o in enumerate(list(cur.ops)):
         if budget <= 0: break
+        if o['op'] in ('addmany', 'readmany') and o['n'] > 1:
+            # a bulk operation: the smallest count that still fails (bisection; the failing input stays ONE operation line)
+            lo, hi = 0, o['n']                     # invariant: count `hi` fails
+            while hi - lo > 1 and budget > 0:
+                mid = (lo + hi) // 2
+                ops = list(cur.ops); ops[i] = dict(o, n=mid); cand = Hist(ops, cur.pool, cur.kind); budget -= 1
+                w = fails(cand)
+                if w: hi, cur, why = mid, cand, w
+                else: lo = mid
+            continue
         if o['op'] == 'read' and isinstance(o['file'], dict) and 'raw' in o['file']:
             f = o['file']; ls = f['raw'].split('\n')
             for j in range(len(ls) - 1, -1, -1):             # a file the generator does not interpret: drop whole lines
@@ -1089,6 +1183,23 @@ class C14:
         for i in range(0, len(hists), 400):
             bad += check_histories(env, hists[i:i + 400], stats, timing=tsplit)
         timings['correspondence_and_search'] = round(time.time() - t, 2)
+        # ---- 5a. bulk operations (every run): growth far beyond the initial capacity and beyond CRYSTALARRAY_MAX ------------------
+        t = time.time()
+        bulk = {}
+        if not replay:
+            hb = bulk_histories(random.Random(seed * 1000003 + 141), env.bcap, len(names), tier)
+            st1 = {}
+            bad += check_histories(env, hb, st1, timing=tsplit)
+            big = [(o['op'], o['arr'][0], o['n']) for h in hb for o in h.ops if o['op'] in ('addmany', 'readmany')]
+            bulk = dict(histories=len(hb), ops=st1.get('ops', 0), lines_compared=st1.get('lines', 0), bulk_operations=len(big),
+                        single_additions_in_addmany=sum(n for k, a, n in big if k == 'addmany'), crystals_in_readmany_files=sum(n for k, a, n in big if k == 'readmany'),
+                        file_sizes=sorted({n for k, a, n in big if k == 'readmany'}), largest_user_array=st1.get('max_n', 0), largest_capacity=st1.get('max_alloc', 0),
+                        largest_builtin=st1.get('max_builtin', 0), distribution=st1.get('dist', {}), errors_hit=st1.get('errors', {}))
+            for k in ('histories', 'ops', 'lines', 'ub_agreed', 'impl_aborts'): stats[k] = stats.get(k, 0) + st1.get(k, 0)
+            for k in ('max_n', 'max_alloc', 'max_builtin'): stats[k] = max(stats.get(k, 0), st1.get(k, 0))
+            stats.setdefault('kinds', {})['bulk'] = len(hb)
+            stats.setdefault('_nontrivial', set()).update(st1.get('_nontrivial', set()))
+        timings['bulk'] = round(time.time() - t, 2)
         # ---- 5b. exhaustive enumeration of short histories (every run) ----------------------------------------------
         t = time.time()
         exh = {}
@@ -1177,13 +1288,17 @@ class C14:
                         'fgets(buffer,100), glued tags - whose expected content is what the character-level reader model makes of their bytes), '
                         'a "misuse" kind with stale handles (sanitizer abort <=> model ub); every history is run on the library (fresh process), the model and the '
                         'specification; after EVERY operation: return value, error, live blocks, open files, raw vector (count, capacity, order), listing, a lookup of every '
-                        'pool name in every live collection, every handed-out copy.  non-trivial = distinct histories with at least one successful addition or file load' % len(POOL),
+                        'pool name in every live collection, every handed-out copy.  (c) BULK (every run): short histories around bulk operations - `addmany` (hundreds of single additions of generated, pairwise different crystals whose names are '
+                        'not in insertion order; answers the number accepted, the index of the first refusal and its error) and `readmany` (generated files with 300, CRYSTALARRAY_MAX - 1, 600 and 1100 crystals) - into user arrays of initial capacity '
+                        '0, 7, 12, 3, 1 (growth past 512 and 1024 entries), repeated (all duplicates: refused), and into the built-in collection around its capacity (additions up to the refusal, a file that fits exactly, a file with one crystal '
+                        'too many, refills); count, capacity, memory order, listing and a sample of lookups compared after every operation; a bulk operation is the sequence of its single operations through the unchanged model / specification '
+                        'step.  non-trivial = distinct histories with at least one successful addition or file load' % len(POOL),
                    samples=samples, histories=stats.get('histories', 0), lines_compared=stats.get('lines', 0), kinds=stats.get('kinds', {}),
                    distribution=stats.get('dist', {}), errors_hit=stats.get('errors', {}), ub_agreed=stats.get('ub_agreed', 0), impl_aborts=stats.get('impl_aborts', 0),
                    max_user_array=stats.get('max_n', 0), max_capacity=stats.get('max_alloc', 0), max_builtin=stats.get('max_builtin', 0),
                    max_rel_dev_volume=stats.get('max_rel_dev', 0.0), builtin_crystals=len(names), CRYSTALARRAY_MAX=env.bcap,
                    correspondence_mismatches=len(tie), search_violations=len(viol), nonvacuity_examples=n_examples,
-                   exhaustive=exh, memory_sanitizer_pass=msan or 'thorough tier only',
+                   exhaustive=exh, bulk=bulk, memory_sanitizer_pass=msan or 'thorough tier only',
                    lookups_by_name_length=stats.get('lookups_by_name_length'), get_ops_by_name_length=stats.get('get_ops_by_name_length'),
                    file_kinds=stats.get('file_kinds'), files_outside_the_reader_model=stats.get('reader_unsupported', 0),
                    extracted_structure=(dict(growth_step=facts['growth'], fgets_length=facts['fgets_n'], scanf_formats=facts['formats'], buffers=facts['buffers'],
